@@ -471,8 +471,14 @@ def field_spec(rng):
     naxes = rng.choice([1, 2, 2, 3])
     sizes = rng.sample([2, 3, 4, 5], naxes)
     names = ["x", "y", "z"][:naxes]
-    mode = rng.choice(["valid", "valid", "valid", "uniform", "random", "shadow", "root"])
+    mode = rng.choice(["valid", "valid", "valid", "uniform", "random", "shadow", "root", "boundary"])
     kdata = rng.choice([0, 1, 2, 2, 3, 3])
+    real_mode = mode
+    if mode == "boundary":
+        # valid by construction, then ONE variable is moved to a sibling of its dimension's group
+        # whose name extends that group's name (/g1/g2b beside /g1/g2): must be refused
+        mode = "valid"
+        kdata = max(kdata, 1)
     if mode == "root":
         kdata = 0
     axes, cons = [], []
@@ -480,7 +486,7 @@ def field_spec(rng):
     for i in range(naxes):
         has_dc = rng.random() < 0.7
         if mode == "valid":
-            dg = chain[:rng.randint(0, kdata)]
+            dg = chain[:rng.randint(1 if (real_mode == "boundary" and i == 0) else 0, kdata)]
         elif mode in ("uniform", "shadow"):
             dg = chain[:r0]
         elif mode == "root":
@@ -552,6 +558,15 @@ def field_spec(rng):
         spec["grid_mapping"] = {"ncvar": "crs", "groups": place([]), "coords": auxes}
     if rng.random() < 0.4:
         spec["cell_methods"] = [{"axes": [rng.choice(data_axes)], "method": "mean"}]
+    if real_mode == "boundary":
+        spec["mode"] = "boundary"
+        movable = [c for c in cons if c["type"] != "dim"
+                   and any(axes[i]["dimgroups"] for i in c["axes"] if axes[i].get("dimgroups") is not None)]
+        if movable:
+            c = rng.choice(movable)
+            dg = max((axes[i]["dimgroups"] for i in c["axes"] if axes[i].get("dimgroups")), key=len)
+            c["groups"] = dg[:-1] + [dg[-1] + "b"]
+            c["bounds"] = None
     if spec["groups"] and rng.random() < 0.5:
         spec["group_attrs"] = {"comment": None} if rng.random() < 0.5 else {"model": "m1"}
         if "model" in spec["group_attrs"]:
@@ -1034,7 +1049,8 @@ def check_field_case(chk, c, r, spec, variables, dimname, bump):
         return
     if "write_exc" in G:
         bump("grouped-write-rejected")
-        if G["write_exc"] != "ValueError":
+        if G["write_exc"] != "ValueError" or "not in the same group nor in a parent group" not in G.get("write_msg", ""):
+            # the only refusal the property allows is the writer's own visibility check
             chk.fail("property", "grouped-write-error:" + G["write_exc"],
                      f"grouped write raised {G['write_exc']}: {G.get('write_msg')}", {"input": inp, "observed": G})
         return
